@@ -90,6 +90,19 @@ def run_one(rec: Rec, spec, steps, tag):
                 seen.add(id(m))
                 moves.append((name, m))
     dl = {id(m): getattr(m, "default_label", None) for _, m in moves}
+    # moves whose user labelling groups several particles under one label (a coarser grouping than the particles): the
+    # "one label, one particle" clause cannot hold for them from the start and is not judged; everything else is
+    grouping = set()
+    for _, m in moves:
+        lab_ = np.asarray(m.labels)
+        byl_: dict = {}
+        for r_ in range(min(len(lab_), n0)):
+            if lab_[r_] >= 0:
+                byl_.setdefault(int(lab_[r_]), set()).add(part[r_])
+        if any(len(v) > 1 for v in byl_.values()):
+            grouping.add(id(m))
+    if grouping:
+        rec.count("simulations_with_a_coarser_grouping_move")
     wit0 = {"table": shape, "species_size": tsize, "default_labels": sorted({repr(v) for v in dl.values()}), "seed": spec["seed"], "atoms": spec["atoms"].get("kind")}
 
     def snap(m):
@@ -201,6 +214,13 @@ def run_one(rec: Rec, spec, steps, tag):
                 elif len(set(got.tolist())) != 1:
                     krec.viol("C05/inserted-particle-split-labels", f"atoms of one inserted particle got labels {got.tolist()}", w2)
             if d is None:
+                # a new particle gets a label of its own: none that other atoms of this move already carry
+                all_new = [r for _, rows_ in new_particles for r in rows_]
+                for pid, rows in new_particles:
+                    others = np.delete(lab, all_new)  # atoms that were there before the trial (two particles inserted in one trial sharing a label is the listed finding, judged below)
+                    if len(rows) and lab[rows[0]] >= 0 and np.any(others == lab[rows[0]]):
+                        krec.viol("C05/new-particle-label-already-in-use", f"the inserted particle got label {int(lab[rows[0]])} in move '{name}', which other atoms already carry", w2)
+            if d is None and id(mv) not in grouping:
                 # same non-negative label <=> same ledger particle
                 byl: dict = {}
                 for r in range(natoms):
@@ -286,7 +306,7 @@ def run(spec):
         r = rng.random()
         if r < 0.5:
             opts["default_label"] = [0, 7, -1][int(rng.integers(3))]
-        s = workloads.gen(rng, "grand", **opts)
+        s = workloads.gen(rng, "grand", pairs=True, **opts)
         s["T"] = 3000.0
         s["mu"] = float(rng.choice([0.0, 0.3, -0.2]))
         run_one(rec, s, spec["steps"], i)
